@@ -242,10 +242,11 @@ def plan(tier):
         runs = []
         for e in EMBEDDINGS:
             full = e in ("dense", "fat")
-            for sh in range(8 if full else 3):
-                runs.append(dict(section="single", emb=e, k=7 if full else 6, maxlen=5, sel_max=3 if full else 2,
-                                 rc_max=2 if full else 1, full=int(full), shard=sh, shards=8 if full else 3))
-        for e in ("dense", "fat", "stride32", "mixed"):
+            big = e == "dense"
+            for sh in range(8 if big else 3):
+                runs.append(dict(section="single", emb=e, k=7 if big else 6, maxlen=5, sel_max=3 if full else 2,
+                                 rc_max=2 if full else 1, full=int(full), shard=sh, shards=8 if big else 3))
+        for e in ("dense", "fat", "stride32"):
             for sh in range(4):
                 runs.append(dict(section="multi", emb=e, k=4, maxlen=4, sel_max=2, rc_max=3, shard=sh, shards=4))
         for e in EMBEDDINGS:
